@@ -231,7 +231,8 @@ pub fn generate(rng: &mut Rng, tier: &str) -> Case {
         gens::normalise(&mut g, 4000);
         sim.generators.insert(crate::hostcase::GEN_PATHS[i].to_owned(), vec![g]);
     }
-    let gen_args = vec![("k".to_owned(), "v".to_owned())];
+    // 0..5 arguments: the request carries them in the order they were written
+    let gen_args: Vec<(String, String)> = (0..rng.usize_below(6)).map(|k| (format!("{}{k}", *rng.pick(&["k", "opt", "name-", "z"])), if rng.chance(1, 5) { String::new() } else { format!("v{}", rng.below(1000)) })).collect();
     let mut extra: Vec<String> = Vec::new();
     if rng.chance(1, 4) {
         extra.push("--diagnostic-format".into());
